@@ -67,10 +67,23 @@ def run(ctx):
                 base = dict(edges=edges, weights=w, massive=massive, ext=ext, D=3)
                 dod, Lf, table = oracle.table_oracle(edges, w, massive, ext, 3)
                 base.update(table=table, dod=dod, loops=Lf, accepted=not oracle.divergent_subsets(table), name="heavy_weight")
-                t = graphs.near_threshold(rng, base, delta)
-                for cc in (base, t):
+                # several tuned variants per (weight, threshold): which subset is tuned is random, and only some choices give a graph whose
+                # ONLY near-threshold subset is the tuned one (a deterministic presence in every run instead of one lucky draw)
+                ts = [graphs.near_threshold(rng, base, delta) for _ in range(6)]
+                for cc in [base] + ts:
                     if cc is not None:
                         cc = dict(cc); cc["name"] = "heavy_weight"; cases.append(cc)
+    # ... and directly: a polygon whose massive edge is heavy and whose last edge has the power D/2 - delta, so that the spanning subgraph
+    # "everything but the last edge" has omega = +delta exactly (weight sum ~ heavy, omega 2e-9 .. 1e-7: convergent), or -delta (divergent)
+    for heavy in (60.0, 150.0, 1000.0, 1e6):
+        for delta in (5e-9, 2e-9, 1e-7, -5e-9, -1e-7):
+            for k in (3, 4):
+                edges = [(i, (i + 1) % k) for i in range(k)]
+                w = [heavy] + [1.0] * (k - 2) + [1.5 - delta]
+                massive = [True] + [False] * (k - 1)
+                dod, Lf, table = oracle.table_oracle(edges, w, massive, list(range(k)), 3)
+                cases.append(dict(edges=edges, weights=w, massive=massive, ext=list(range(k)), D=3, table=table, dod=dod, loops=Lf,
+                                  accepted=not oracle.divergent_subsets(table), name="heavy_weight_small_omega"))
     # exactly ONE external vertex: subsets that avoid it are not momentum spanning (their omega must not have the whole graph's dod
     # subtracted). Accepted graphs in which such a subset has 0 < omega <= dod (rejection sampling), plus rejected ones
     made = 0
